@@ -48,11 +48,25 @@ def gen_C15(ctx, n):
         rate = rng.choice([0.01, 0.02, 0.05, 0.0, 0.2])
         cfg["PLR"] = {"class": "PriceLimitRule", "targetMarkets": targets, "triggerChangeRate": float(rate),
                       "enabled": rng.random() < 0.9}
+        evs = ["PLR"]
+        others = [m for m in mk if m not in targets]
+        if i % 3 == 1:
+            # another event with a *timed* order hook registered before the rule (here an order-mistake
+            # shock on a non-target market when there is one): the rule must still see every order
+            steps0 = cfg["simulation"]["sessions"][0]["iterationSteps"]
+            cfg["OMS"] = {"class": "OrderMistakeShock", "target": rng.choice(others) if others else rng.choice(mk),
+                          "triggerTime": rng.randint(0, steps0 - 1), "priceChangeRate": 0.0 if not others else float(rng.choice([-0.05, 0.05])),
+                          "orderVolume": 1, "orderTimeLength": 2, "enabled": bool(others)}
+            evs = ["OMS", "PLR"]
+            for nm in ("NA", "HA"):
+                if nm in cfg:
+                    cfg[nm]["aggr"] = 0.3          # far outside every band
+                    cfg[nm]["pEmpty"] = 0.0
         for k, s in enumerate(cfg["simulation"]["sessions"]):
             s["withOrderPlacement"] = True
             s["withOrderExecution"] = rng.random() < 0.8
             if k == 0:
-                s["events"] = ["PLR"]
+                s["events"] = list(evs)
         yield cfg, rng.randint(0, 2 ** 31)
 
 
@@ -87,11 +101,27 @@ def gen_C14(ctx, n):
             s["withOrderExecution"] = rng.random() < 0.6
             s["maxNormalOrders"] = max(2, s["maxNormalOrders"])
         k = rng.randint(0, len(ses) - 1)
+        force_fps = False
+        if i % 3 == 0:
+            # deterministic fundamentals (zero volatility, non-zero drift): the whole series of every
+            # market is then known in closed form, shock included, and is checked at every step
+            for nm in mk:
+                cfg[nm]["fundamentalVolatility"] = 0.0
+                cfg[nm]["fundamentalDrift"] = rng.choice([0.0, 1e-4, -2e-4, 1e-3])
+            force_fps = True
+        if i % 6 == 3 and len(ses) >= 2:
+            # a long quiet first session: the shock's absolute time lands on / around the 100-step
+            # generation chunk of the fundamentals
+            ses[0]["iterationSteps"] = rng.choice([100, 100, 99, 101, 200])
+            ses[0]["withOrderPlacement"] = False
+            k = 1
+            force_fps = True
         steps = ses[k]["iterationSteps"]
         ev = []
-        if rng.random() < 0.7:
+        if rng.random() < 0.7 or force_fps:
             cfg["FPS"] = {"class": "FundamentalPriceShock", "target": rng.choice(mk),
-                          "triggerTime": rng.randint(0, steps - 1), "priceChangeRate": rng.choice([-0.1, 0.05, 0.3, -0.5]),
+                          "triggerTime": rng.choice([0, 0, 1, rng.randint(0, steps - 1)]) if force_fps else rng.randint(0, steps - 1),
+                          "priceChangeRate": rng.choice([-0.1, 0.05, 0.3, -0.5]),
                           "shockTimeLength": rng.choice([1, 1, 2, 3, steps + 3]), "enabled": rng.random() < 0.85}
             ev.append("FPS")
         if rng.random() < 0.7 or not ev:
@@ -167,6 +197,9 @@ def mon_C15(run, cfg, seed):
             else:
                 if m not in targets:
                     run.c15["nontarget"] += 1
+                oms = cfg.get("OMS")
+                if oms is not None and oms.get("enabled", True) and m == sim.name2market[oms["target"]].market_id:
+                    continue        # the order-mistake shock configured on this (non-target) market may replace an order
                 if post != a:
                     out.append(viol("C15", "C15/non-target-or-market-order-altered",
                                     "orders for non-target markets and market orders are accepted unchanged",
@@ -326,6 +359,27 @@ def mon_C14(run, cfg, seed):
                     sig = "C14/fundamental-shock-missing-or-wrong-size" if expect != b else "C14/fundamental-changed-outside-shock"
                     out.append(viol("C14", sig, "a fundamental price shock multiplies the target's fundamental by (1+rate) once at each step of its window and at no other time and for no other market",
                                     {"market": mk, "step_market": m, "time": t, "before": b, "after": v, "expected": expect}, cfg, seed))
+    # deterministic fundamentals: the whole series in closed form, for every market and every step
+    if run.error is None and all(cfg[nm].get("fundamentalVolatility", 0.0) == 0.0 for nm in cfg["simulation"]["markets"]
+                                 if isinstance(cfg.get(nm), dict) and "fundamentalVolatility" in cfg[nm]) and \
+            not any(cfg[nm].get("class", "").endswith("IndexMarket") for nm in cfg["simulation"]["markets"]):
+        for nm in cfg["simulation"]["markets"]:
+            mkt = sim.name2market[nm]
+            f0 = cfg[nm].get("marketPrice", 300.0) if cfg[nm].get("fundamentalPrice") is None else cfg[nm]["fundamentalPrice"]
+            drift = cfg[nm].get("fundamentalDrift", 0.0)
+            series = mkt.get_fundamental_prices()
+            last_step = sum(x["iterationSteps"] for x in cfg["simulation"]["sessions"]) - 1   # last step that is run
+            for t, v in enumerate(series):
+                hits = 0
+                if fps_on and mkt.market_id == tgt:
+                    hits = max(0, min(t, start + ln - 1, last_step) - start + 1) if t >= start else 0
+                want = f0 * math.exp(drift * t) * (1 + f["priceChangeRate"]) ** hits if f is not None else f0 * math.exp(drift * t)
+                checks += 1
+                if not math.isclose(v, want, rel_tol=1e-9):
+                    out.append(viol("C14", "C14/fundamental-series-not-closed-form",
+                                    "with deterministic fundamentals every market's fundamental at step t is initial x exp(drift t) x (1+rate)^(number of window steps <= t) for the target and initial x exp(drift t) for the others",
+                                    {"market": nm, "time": t, "value": v, "expected": want, "window": [start, ln] if f is not None and fps_on else None}, cfg, seed))
+                    break
     # order mistake shock
     o = cfg.get("OMS")
     oms_on = o is not None and o.get("enabled", True) and "OMS" in ses_of
